@@ -77,8 +77,18 @@ pub fn force_tail(rng: &mut Rng, p: &mut Vec<u8>) {
     if len == 0 {
         return;
     }
-    let zeros = rng.below(10).min(len);
-    let ones = rng.below(10).min(len - zeros);
+    // mostly short tails; now and then one that passes 2^8 (and multiples of 255) or 2^16, so
+    // that whatever counts withheld zeros or consecutive 1b bytes meets its limits
+    let tail_len = |rng: &mut Rng| -> usize {
+        match rng.below(24) {
+            0 => rng.range(250, 260),
+            1 => rng.range(505, 515),
+            2 => *rng.pick(&[1020usize, 1023, 1024, 1275, 65_535, 65_536, 65_540]),
+            _ => rng.below(10),
+        }
+    };
+    let zeros = tail_len(rng).min(len);
+    let ones = tail_len(rng).min(len - zeros);
     // layout: ... [1b * ones] [00 * zeros]   or   ... [00 * zeros] [1b * ones]
     if rng.chance(1, 2) {
         for i in 0..zeros {
@@ -97,7 +107,35 @@ pub fn force_tail(rng: &mut Rng, p: &mut Vec<u8>) {
     }
 }
 
+/// Payloads whose frame carries a checksum of a special shape: all zeros, all ones, bytes that
+/// look like escape / end / start bytes.  Found by search over two free bytes behind a few
+/// prefixes (a pure function of nothing: computed once per process).
+pub fn special_crc_payloads() -> &'static Vec<Vec<u8>> {
+    static T: std::sync::OnceLock<Vec<Vec<u8>>> = std::sync::OnceLock::new();
+    T.get_or_init(|| {
+        const TARGETS: [u16; 12] = [0x0000, 0xffff, 0x1b1b, 0x1a1b, 0x1b1a, 0x0101, 0x001b, 0x1b00, 0x00ff, 0xff00, 0x0100, 0x0001];
+        let prefixes: [&[u8]; 3] = [&[], &[0x76, 0x05, 0xdb], &[0x1b, 0x1b, 0x1b, 0x1b, 0x00, 0x00, 0x42]];
+        let mut out = Vec::new();
+        for prefix in prefixes {
+            for ab in 0..=0xffffu16 {
+                let mut p = prefix.to_vec();
+                p.push((ab >> 8) as u8);
+                p.push(ab as u8);
+                let f = crate::refenc::refenc(&p);
+                let crc = u16::from(f[f.len() - 2]) | (u16::from(f[f.len() - 1]) << 8);
+                if TARGETS.contains(&crc) {
+                    out.push(p);
+                }
+            }
+        }
+        out
+    })
+}
+
 pub fn gen_payload(rng: &mut Rng, tier: Tier, max: usize) -> Vec<u8> {
+    if max >= 9 && rng.chance(1, 40) {
+        return rng.pick(special_crc_payloads()).clone();
+    }
     let n = payload_len(rng, tier, max);
     let mut p = match rng.below(8) {
         0 => rng.bytes(n),
